@@ -70,6 +70,20 @@ type Ctx struct {
 	// prefix replay: stop once the case with ordinal stopOrd is complete and report what was recorded for stopSig
 	stopOrd int64
 	stopSig string
+	// sequence pass: this worker runs the whole enumeration in one process until seqStop and then hands in what it has
+	seqStop time.Time
+	outFile string
+}
+
+// finishSequence ends a sequence pass at its time limit.
+func (c *Ctx) finishSequence() {
+	c.Rep.Notes["sequence_pass_stopped_at_time_limit_after_cases"] = c.ord
+	raw, err := json.Marshal(&c.Rep)
+	if err == nil {
+		os.WriteFile(c.outFile, raw, 0o644)
+	}
+	os.RemoveAll(c.Work)
+	os.Exit(0)
 }
 
 // realStdout: drivers silence os.Stdout while the code under test runs.
@@ -119,6 +133,9 @@ func (c *Ctx) Mine(i int64) bool { return int(i%int64(c.Shards)) == c.Shard }
 func (c *Ctx) Case(nontrivial bool) {
 	if c.stopSig != "" && c.ord > c.stopOrd+1 {
 		c.finishPrefix()
+	}
+	if !c.seqStop.IsZero() && c.ord&63 == 0 && time.Now().After(c.seqStop) {
+		c.finishSequence()
 	}
 	c.Rep.Evaluations++
 	c.ord++
@@ -222,6 +239,8 @@ type Driver struct {
 	Assumptions []string
 	// Workers overrides the number of worker processes (0 = 16).
 	Workers int
+	// NoSequence: skip the sequence pass (drivers whose cases run in processes of their own).
+	NoSequence bool
 	// BudgetQuick/BudgetThorough: internal deadline per worker (0 = none).
 	BudgetQuick, BudgetThorough time.Duration
 	// CrashIsViolation: a worker that dies (fatal error, os.Exit by runtime) is itself a finding (C15).
@@ -336,6 +355,12 @@ func workerMain(d *Driver, tier, worker, out string) {
 	}
 	if b > 0 {
 		c.dl = time.Now().Add(b)
+	}
+	if v, err := strconv.Atoi(os.Getenv("VERIF_SEQUENCE_SECONDS")); err == nil && v > 0 && n == 1 {
+		c.seqStop, c.outFile = time.Now().Add(time.Duration(v)*time.Second), out
+		c.dl = time.Time{}
+		os.RemoveAll(c.Work)
+		c.Work = scratch(d.ID, "wseq")
 	}
 	d.Run(c)
 	raw, err := json.Marshal(&c.Rep)
@@ -511,6 +536,36 @@ func coordinator(d *Driver, tier string) int {
 			results[i] = res{rep: &r}
 		}(i)
 	}
+	// Sequence pass: next to the shards, one more process runs the enumeration from its start in a single
+	// process, for a limited time. Every case is then preceded by ALL earlier cases (in a shard only by every
+	// 16th), so state that the code under test keeps across calls and that two neighbouring cases collide on
+	// shows up; its violations are merged, its case counts are not.
+	var seqRep *Report
+	seqNote := ""
+	if !d.NoSequence && n > 1 && os.Getenv("VERIF_NO_SEQUENCE") == "" {
+		wg.Add(1)
+		go func() {
+			defer wg.Done()
+			secs := 20
+			if tier == "thorough" {
+				secs = 600
+			}
+			out := filepath.Join(outDir, "seq.json")
+			lf, _ := os.Create(filepath.Join(outDir, "seq.log"))
+			defer lf.Close()
+			cmd := exec.Command(self, d.ID, "--tier", tier, "--worker", "0/1", "--out", out)
+			cmd.Stdout, cmd.Stderr = lf, lf
+			cmd.Env = append(os.Environ(), "GOMAXPROCS=2", fmt.Sprintf("VERIF_SEQUENCE_SECONDS=%d", secs))
+			err, stalledAt := runWatched(cmd, filepath.Join(outDir, "seq.hb"), stallLimit(tier))
+			raw, rerr := os.ReadFile(out)
+			var r Report
+			if stalledAt != "" || rerr != nil || json.Unmarshal(raw, &r) != nil {
+				seqNote = fmt.Sprintf("the sequence pass did not hand in a report (%v %v); the shards alone decide", err, rerr)
+				return
+			}
+			seqRep = &r
+		}()
+	}
 	wg.Wait()
 
 	// merge
@@ -585,6 +640,16 @@ func coordinator(d *Driver, tier string) int {
 		}
 	}
 
+	if seqRep != nil {
+		for _, v := range seqRep.Violations {
+			vio[v.Sig] = append(vio[v.Sig], v)
+		}
+		for k, v := range seqRep.VioCounts {
+			if m.VioCounts[k] == 0 {
+				m.VioCounts[k] = v
+			}
+		}
+	}
 	findings, err := loadFindings()
 	if err != nil {
 		fmt.Fprintln(os.Stderr, "INFRA: known_findings.json:", err)
@@ -765,6 +830,15 @@ func coordinator(d *Driver, tier string) int {
 		"signatures_beyond_the_first_25_unlisted_not_replayed": len(notExamined),
 		"workers": n,
 		"notes":   m.Notes,
+	}
+	if seqRep != nil {
+		sp := map[string]any{"cases_in_one_process": seqRep.Evaluations, "complete": true}
+		if v, ok := seqRep.Notes["sequence_pass_stopped_at_time_limit_after_cases"]; ok {
+			sp["complete"], sp["stopped_at_time_limit_after_cases"] = false, v
+		}
+		cov["sequence_pass"] = sp
+	} else if seqNote != "" {
+		cov["sequence_pass"] = map[string]any{"note": seqNote}
 	}
 	if m.States > 0 && m.Transitions > 0 {
 		// states/transitions of the explored tree or graph, counted by the driver;
